@@ -242,6 +242,11 @@ def gen(tier, rng):
             n1, n2 = s[a1], s[a2]
             for off in range(-n1, n2 + 1):
                 tr.append((s, off, a1, a2))
+    def _empty(t):
+        s, off, a1, a2 = t
+        return (off >= 0 and s[a2] - off <= 0) or (off < 0 and s[a1] + off <= 0)
+    # an empty diagonal kills the harness process (SIGFPE) and costs a restart each: keep a bounded sample of those
+    tr = [t for t in tr if not _empty(t)] + stride_pick([t for t in tr if _empty(t)], 80 if quick else 300)
     if not quick:
         tr = stride_pick(tr, 12000)
     k = 0
